@@ -61,5 +61,7 @@ class SRLB(TLV):
                     data = struct.unpack('!I', value[7:7 + length])[0]
                     value = value[7 + length:]
                     tmp['sid'] = data
+                else:
+                    raise ValueError('unexpected SID/Label sub-TLV length %s' % length)
                 results.append(tmp)
         return cls(value=results)
